@@ -326,7 +326,7 @@ def coq_case(g, d, rd):
     return "(mkCase %s %s %s %s %s)" % (coq_decl(g, d), c_strs(rd["names"]), "true" if rd["auto"] else "false", ops, probes)
 
 
-CASE_HDR = """Require Import PV.Base.Prelude PV.Model.Proto PV.Model.Value PV.Model.Static PV.Spec.SpecC19.
+CASE_HDR = """Require Import PV.Base.Prelude PV.Model.Proto PV.Model.Value PV.Model.Static PV.Spec.SpecC19 PV.Proofs.C19Spec.
 Open Scope N_scope.
 Set Printing Width 1000000.
 Set Printing Depth 1000000.
@@ -353,7 +353,7 @@ def coq_compare(tag, cases):
             f.write("Eval vm_compute in failing chk %d cases.\n" % lo)
             f.write("Definition chk_spec (c : c19case * implobs) : bool := spec_c19 (fst c) (snd c).\n")
             f.write("Eval vm_compute in failing chk_spec %d cases.\n" % lo)
-            f.write("Definition chk_dom (c : c19case * implobs) : bool := sp_applicable (fst c) && wf_declb (c_decl (fst c)).\n")
+            f.write("Definition chk_dom (c : c19case * implobs) : bool := sp_applicable (fst c) && wf_declb (c_decl (fst c)) && round_allowedb (fst c).\n")
             f.write("Eval vm_compute in failing chk_dom %d cases.\n" % lo)
         files.append(path)
     procs = [subprocess.Popen(["timeout", "900", "coqc", "-noglob", "-Q", COQ, "PV", p], stdout=subprocess.PIPE, stderr=subprocess.STDOUT, text=True)
@@ -368,7 +368,7 @@ def coq_compare(tag, cases):
             errors.append((path, "unexpected coqc output: " + out[-1500:])); continue
         a += ls[0]; b += ls[1]
         if ls[2]:
-            errors.append((path, "rounds outside the domain of the executable spec / not well formed (generator defect): %s" % ls[2][:10]))
+            errors.append((path, "rounds outside the domain of theorem c19_spec_model (wf_declb, round_allowedb, sp_applicable) - generator defect: %s" % ls[2][:10]))
     return sorted(a), sorted(b), errors
 
 
